@@ -1012,6 +1012,8 @@ def native_method(I, recv, name, args, kw):
             if mx > len(args) and not kw: raise Raised('IndexError')
             return Opaque('str')
         if name == 'encode': return recv.encode(*args)
+        if name == 'join' and isinstance(args[0], Opaque):
+            return Opaque('str')
         if name == 'join':
             items = I.iterate(args[0])
             if all(isinstance(x, str) for x in items): return recv.join(items)
